@@ -14,7 +14,8 @@ LEVEL_TEXT = ("Clause-level static rules over every domain and scalar class: the
               "wherever the code reaches a verdict it must be the lattice-theoretic one (bottom <= x, x <= top, non-bottom <= bottom is "
               "false, bottom|x = x, x&bottom = bottom, top&x = x ...); product/lifting domains combine their components "
               "component-wise with the same operator, left from this and right from the argument; set_to_bottom/set_to_top make "
-              "is_bottom/is_top true; a top value is never stored in an environment map. Inclusion of two non-special values (tree "
+              "is_bottom/is_top true; a top value is never stored in an environment map; the inclusion test of a product / lifting compares "
+              "every component that its join combines. Inclusion of two non-special values (tree "
               "walks, graph comparison) is NOT decided.")
 ASSUMPTIONS = ["is_bottom()/is_top() of a class are correct characterisations of its bottom/top representation (checked for set_to_*, not in general)"]
 
